@@ -18,7 +18,7 @@ func init() { registry["C20"] = propC20 }
 func propC20() *Property {
 	return &Property{
 		ID:          "C20",
-		Explanation: "Static shape, guard and identity-flow rules on the media hook. Decided: (R1) the only process-spawning call sites in the module are exec.Command and the Cmd's run method in ui.openExternally, the program is not a constant shell, and of the exec.Cmd that exec.Command made only the standard streams are ever set (not Path, Args, Env or Dir, against which a relative program path would be resolved); (R2) the argv handed to exec.Command is element 0 / the tail of a slice freshly made with the configured hook's length and filled by copy from config.Parsed.Media.Hook, which is itself never written; (R3) every other write into that slice is at an index known to be non-zero, on the equality edge of the element itself against a constant placeholder, and stores — by identity, no string operation in between — the link parameter for %url and the Essence/Supertype/Subtype field of the media type for %mimetype/%supertype/%subtype; the placeholder constants are exactly those documented in readme.md; (R4) Stdin is set only when no %url placeholder was substituted and then to a reader over the link itself; (R5) the media type is non-nil at every call of openExternally (every producer of a (link, type, true) triple returns a non-nil type). (R6) the only store into Media.Hook anywhere in the module is the default literal of constants that the decoder overwrites. (R7) fields of mime.MediaType values are written in package mime only, so the %mimetype, %supertype and %subtype handed to the hook describe one type. (R8 = last clause of C17.R10) Essence, Supertype and Subtype of a parsed media type are the three groups of the match, unchanged. Not decided: what the operating system does with argv; the link's own content (deliberately verbatim).",
+		Explanation: "Static shape, guard and identity-flow rules on the media hook. Decided: (R1) the only process-spawning call sites in the module are exec.Command and the Cmd's run method in ui.openExternally, the program is not a constant shell, and of the exec.Cmd that exec.Command made only the standard streams are ever set (not Path, Args, Env or Dir, against which a relative program path would be resolved); (R2) the argv handed to exec.Command is element 0 / the tail of a slice freshly made with the configured hook's length and filled by copy from config.Parsed.Media.Hook, which is itself never written; (R3) every other write into that slice is at an index known to be non-zero, on the equality edge of the element itself against a constant placeholder, and stores — by identity, no string operation in between — the link parameter for %url and the Essence/Supertype/Subtype field of the media type for %mimetype/%supertype/%subtype; the placeholder constants are exactly those documented in readme.md; (R4) Stdin is set only when no %url placeholder was substituted and then to a reader over the link itself; (R5) the media type is non-nil at every call of openExternally (every producer of a (link, type, true) triple returns a non-nil type). (R6) the only store into Media.Hook anywhere in the module is the default literal of constants that the decoder overwrites. (R7) fields of mime.MediaType values are written in package mime only, so the %mimetype, %supertype and %subtype handed to the hook describe one type. (R8 = last clause of C17.R10) Essence, Supertype and Subtype of a parsed media type are the three groups of the match, unchanged. (R9) every way through openExternally passes exec.Command and the go statement that runs it. Not decided: what the operating system does with argv; the link's own content (deliberately verbatim).",
 		Assumptions: []string{
 			"os/exec.Command passes its arguments to execve without interpretation",
 			"readme.md's 'Media Hook' section is the documentation of the placeholders",
@@ -30,6 +30,7 @@ func propC20() *Property {
 			{ID: "C20.R4", Title: "stdin fallback only without %url, carrying the link", Floor: 1, Run: c20R4},
 			{ID: "C20.R5", Title: "media type is non-nil at every external open", Floor: 2, Run: c20R5},
 			{ID: "C20.R6", Title: "the configured hook is not rewritten between the configuration file and the hook", Floor: 1, Run: c20R6},
+			{ID: "C20.R9", Title: "opening a link externally always runs the configured program: every way through openExternally passes exec.Command and the start of the goroutine that runs it", Floor: 1, Run: c20R9},
 			{ID: "C20.R8", Title: "%mimetype, %supertype and %subtype are the three groups of the media type pattern as matched: mime.Parse fills Essence, Supertype and Subtype with them unchanged (same instances as the last clause of C17.R10)", Floor: 2, Run: c17R10},
 			{ID: "C20.R7", Title: "media types are made by package mime and never patched", Floor: 1, Run: c20R7},
 		},
@@ -728,4 +729,52 @@ func countsFromAtLeast(v ssa.Value, k int64) bool {
 		}
 	}
 	return true
+}
+
+// c20R9: "the media hook receives exactly the configured argv" presupposes
+// that it is run. On every path from the entry of openExternally to a return
+// the exec.Command call is passed, and so is the go statement that runs the
+// command (seed C20-2r13 returned early for arguments that look like unknown
+// placeholders).
+func c20R9(c *Ctx) {
+	P := c.P
+	h := analyseHook(P)
+	fname := FuncName(h.fn)
+	if h.command == nil {
+		c.bad(fname+"/exec", P.Pos(h.fn.Pos()), fname, "openExternally no longer calls exec.Command")
+		return
+	}
+	var goStmt ssa.Instruction
+	eachInstr(h.fn, func(_ *ssa.BasicBlock, _ int, in ssa.Instruction) {
+		if g, ok := in.(*ssa.Go); ok && goStmt == nil {
+			goStmt = g
+		}
+	})
+	must := []ssa.Instruction{h.command}
+	if goStmt != nil {
+		must = append(must, goStmt)
+	}
+	for mi, m := range must {
+		kind := []string{"exec.Command", "go"}[mi]
+		escape := ""
+		seen := map[*ssa.BasicBlock]bool{}
+		work := []*ssa.BasicBlock{h.fn.Blocks[0]}
+		for len(work) > 0 && escape == "" {
+			b := work[len(work)-1]
+			work = work[:len(work)-1]
+			if seen[b] || b == m.Block() {
+				continue
+			}
+			seen[b] = true
+			if ret, ok := b.Instrs[len(b.Instrs)-1].(*ssa.Return); ok {
+				escape = P.InstrPos(ret)
+			}
+			if _, isPanic := b.Instrs[len(b.Instrs)-1].(*ssa.Panic); isPanic {
+				continue
+			}
+			work = append(work, b.Succs...)
+		}
+		c.check(escape == "", fname+"/always-runs:"+kind, P.InstrPos(m), fname, "passed on every way through openExternally",
+			"openExternally can return (at "+escape+") without "+describeInstr(P, m)+": for some configurations or links the configured program is never run")
+	}
 }
